@@ -59,7 +59,9 @@ func zz06Addr(i int) []byte {
 }
 
 // zz06NewBLS creates n validators. order[i] is a (possibly symbolic) byte that fixes the relative
-// lexicographic order of the validators' BLS keys: symbolically the key of validator i IS {order[i]};
+// lexicographic order of the validators' BLS keys: symbolically the key of validator i is {order[i], i}
+// (pairwise distinct first bytes, so order[] alone decides the order; the concrete second byte lets the
+// model identify a key without symbolic comparisons);
 // natively validator i receives the real key whose rank among n real keys equals the rank of order[i].
 func zz06NewBLS(t *zzT, n int, order []byte) *zz06BLSEnv {
 	e := &zz06BLSEnv{t: t, n: n}
@@ -71,7 +73,7 @@ func zz06NewBLS(t *zzT, n int, order []byte) *zz06BLSEnv {
 	}
 	if t.Symbolic() {
 		for i := 0; i < n; i++ {
-			e.keys = append(e.keys, []byte{order[i]})
+			e.keys = append(e.keys, []byte{order[i], byte(i)})
 			e.sks = append(e.sks, []byte{byte(i)})
 		}
 		return e
@@ -151,6 +153,14 @@ func (e *zz06BLSEnv) p1bytes(p *blst.P1Affine) []byte {
 	return nil
 }
 
+// isKey: kb is validator i's public key.
+func (e *zz06BLSEnv) isKey(kb []byte, i int) bool {
+	if e.t.Symbolic() {
+		return len(kb) == 2 && kb[1] == byte(i)
+	}
+	return stdbytes.Equal(kb, e.keys[i])
+}
+
 func (e *zz06BLSEnv) verify(sig *blst.P2Affine, pks []*blst.P1Affine, msg []byte) bool {
 	if len(pks) == 0 {
 		return false
@@ -162,7 +172,7 @@ func (e *zz06BLSEnv) verify(sig *blst.P2Affine, pks []*blst.P1Affine, msg []byte
 	for i := 0; i < e.n; i++ {
 		cnt := 0
 		for _, pk := range pks {
-			cnt += t.IteInt(stdbytes.Equal(e.p1bytes(pk), e.keys[i]), 1, 0)
+			cnt += t.IteInt(e.isKey(e.p1bytes(pk), i), 1, 0)
 		}
 		ok = t.And(ok, int(tok[1+i]) == cnt)
 		total += cnt
